@@ -93,6 +93,7 @@ func runC12(r *harness.Run) {
 	} else {
 		r.NotExhaustive("deadline before part 3")
 	}
+	c12ProgramFamilies(r)
 	r.Extra["states"] = atomic.LoadInt64(&c.states)
 	r.Extra["transitions"] = atomic.LoadInt64(&c.transitions)
 	r.Extra["traces_validated_against_impl"] = atomic.LoadInt64(&c.validated)
